@@ -965,7 +965,7 @@ def _run(ck, work, only=None):
             for qs in ("0", "0;0", "0;0;0"):
                 grid.append(("quick", f0, qs, 1))
         for f0 in ("missing", "raises:EOFError", "raises:UnpicklingError", "stale:1,2", "wrongtype", "valid:1", "valid:1,2"):
-            for qs in ("1,2", "1;2", "1,2;2,3", "1;1", "1,2;2,1;3"):
+            for qs in ("1,2", "1;2", "1,2;2,3", "1;1") + (("1;2;3",) if ck.quick else ("1;2;3", "1,2;2,1;3")):
                 grid.append(("config", f0, qs, 1))
         for f0 in ("missing", "raises:EOFError", "stale:0", "valid:0"):
             grid.append(("quick", f0, "0;0", 2))
@@ -973,7 +973,7 @@ def _run(ck, work, only=None):
             grid.append(("config", f0, "1;2", 2))
         for kind, f0, qs, wc in grid:
             drv.ask(f"init {kind} {f0} {qs}")
-            a = drv.ask(f"explore {wc} {ck.budget(300000, 3000000)}")
+            a = drv.ask(f"explore {wc} {ck.budget(400000, 6000000)}")
             se.note((kind, f0, qs, wc), cls=a.split()[0] + ("/wipes" if wc == 2 else ""))
             if a.startswith("unsafe"):
                 unsafe.append((kind, f0, qs, a))
